@@ -17,6 +17,7 @@ where
     read_magic_number(reader).await?;
 
     let (min_shift, depth, header) = read_header(reader).await?;
+    crate::io::reader::index::validate_geometry(min_shift, depth)?;
     let reference_sequences = read_reference_sequences(reader, depth).await?;
     let unplaced_unmapped_record_count = read_unplaced_unmapped_record_count(reader).await?;
 
